@@ -11,10 +11,10 @@ import vlib
 LEVEL_TEXT = ('Lean 4 theorems, for all shapes/targets/parities: pad (2-D and cubes) is the restriction of the centred zero-extended '
               'array (origin sample floor(m/2) -> floor(S/2), every copied sample keeps its coordinate), its slices are in bounds, '
               'pad-then-crop is the identity; subarray/boundary/boundary_slice/slice_offset address the stated index sets; rebin '
-              'preserves the sum; the centroid of an array that is half-turn symmetric about a sample is that sample (also for any ring of weights: antialiased values), hence the centroid of a drawn circle / rectangle / hexagon with zero shift is the origin sample floor(n/2) UNDER the hypotheses of the theorem: row 0 of the image is zero when the row count is even and column 0 is zero when the column count is even (the mirror image of index 0 on an even axis falls outside the array) (centroid_of_drawn_shapes), the centroid of an indicator '
+              'preserves the sum; the centroid of an array that is half-turn symmetric about a sample is that sample (also for any ring of weights: antialiased values), hence the centroid of a drawn circle / rectangle / hexagon with zero shift is the origin sample floor(n/2) UNDER the hypotheses of the theorem: row 0 of the image is zero when the row count is even and column 0 is zero when the column count is even (the mirror image of index 0 on an even axis falls outside the array; satisfiable: centroid_of_drawn_rectangle_instance, a 2x2 rectangle on 6x6 over Q) (centroid_of_drawn_shapes), the centroid of an indicator '
               'set is its mean position; mesh coordinates translate under integer '
               'shifts and negate under the half-turn index map; circle/rectangle/hexagon values lie in [0,1], are binary without '
-              'antialiasing, translate under integer shifts (also spider) and are half-turn symmetric and mirror symmetric about the origin ROW (hexagons in both orientations; the column mirror is their composition, not stated separately) — via the closure of their six '
+              'antialiasing, translate under integer shifts (also spider) and are half-turn symmetric and mirror symmetric about the origin ROW (hexagons in both orientations; the column mirror of unrotated circles, rectangles and hexagons is their composition: column_mirror_when_unrotated) — via the closure of their six '
               'edge normals under negation/mirroring, proved for the real angles n·pi/3 + phi; hex_ring is the loop-by-loop translation of the source (hex_ring_translated) and has 6k cells at cube '
               'distance k, pairwise distinct; the segment numbering is the statement-by-statement translation of the source loop (segment_numbering_translated) and a k-ring aperture has 1+3k(k+1) distinct cells minus the dropped numbers in range; for seg_gap > 0 '
               'two segments at distinct cells share no pixel (separating-axis argument over any ordered field, both orientations, with the '
